@@ -9,6 +9,7 @@ from .. import rfa_common as R
 from ..core import floats
 
 ID = "C07"
+THREADS = True       # part of the cases run concurrently in threads of one interpreter (the schedule dimension)
 MODULES = ["TWV.Properties.RfaImp", "TWV.Tie.RfaLoops", "TWV.Properties.C07", "TWV.Tie.Funfit"]
 TRANSLATORS = ["t4_rfaloops", "t1_funfit"]
 RULE = ("metamorphic pairs/triples of <Strategy>(...).rfa() runs over all six strategies: y -> a*y+b (generic dyadic a != 0, b "
